@@ -13,6 +13,15 @@ CHECKS = {
  "C02": ("exploration", "differential runtime monitor: generated builder programs executed on the real compiler+runner, every expression's witness value and the run outcome compared with an independent field interpreter",
          "Runtime monitoring over generated programs (all aliasing/fold/dedup/fusion shapes, 8 field setups, satisfying and perturbed inputs). Holds on the executions observed; catches miscompilations that need a specific program shape.",
          "DESIGN.md §3 C02", TRUSTED),
+ "C01": ("fault_enumeration", "differential runtime monitor: native uni-STARK / batch-STARK verifiers vs the verification circuit (built once per honest shape, real runner) on honest proofs, on every single-leaf mutation of proof / public values / common data, and on forged proofs pushed through the real prover",
+         "28-42 proof shapes x 6 configurations (BabyBear/KoalaBear D4, KoalaBear quintic, Goldilocks D2, hiding PCS over plain and salted MMCS); exhaustive leaf sweep per shape; verdict agreement is the oracle. Poseidon1 challengers, arity-4 MMCS, cap height > 0 are covered at the MMCS/FRI level by C07/C08 only.",
+         "DESIGN.md §3 C01", TRUSTED),
+ "C14": ("fault_enumeration", "runtime monitor on packed inputs: lengths vs the circuit's expectations, value held after an honest run by every allocated proof target vs the proof element it must carry (independent parallel walkers), and single-position perturbation of every packed position vs the native verdict",
+         "Exhaustive over targets and packed positions of every shape of C01's shape list.",
+         "DESIGN.md §3 C14", TRUSTED),
+ "C15": ("fault_enumeration", "runtime fault injection on proof structure: every array node / option / non-field integer of proof, common data and parameters structurally mutated and fed to the circuit builders in memory-limited child processes; panics, aborts and circuits accepting what native rejects are violations",
+         "Exhaustive structural mutants per shape (9 shapes quick, all thorough) x 4-5 entry points (verify_p3_uni_proof_circuit, verify_p3_batch_proof_circuit, verify_batch_circuit, verify_fri_circuit, build_next_layer_circuit). Panics inside native verifiers are observations only.",
+         "DESIGN.md §3 C15", TRUSTED),
  "C04": ("fault_enumeration", "runtime fault injection on execution traces: honest Traces of generated programs are forged (table cell, slot value on all tables, constants, public cells), labelled by an independent op-relation evaluator, proven with the honest prover data and shown to the real verifier",
          "Enumerated single-fault classes on ALU/Const/Public tables of generated circuits in 8 field setups; a forgery labelled unsatisfying must be rejected. Non-primitive rows are covered at row level by C11 and for the challenger by C06. Coordinated multi-cell attacks are outside the explored set.",
          "DESIGN.md §3 C04", TRUSTED),
@@ -62,7 +71,7 @@ CHECKS = {
          "For generated programs, assignments accepted by the op-list relations alone (prover-chosen values for every slot no relation forces) must satisfy every source relation. Sampled programs and assignments, not all adversaries.",
          "DESIGN.md §3 C03", TRUSTED),
 }
-NOT_YET = "check not built yet (work in progress; see DESIGN.md)"
+NOT_YET = "not claimed"
 
 m = {
  "version": 1,
